@@ -1,4 +1,5 @@
 import Vore.Driver.Print
+import Vore.Driver.OpsParse
 import Vore.Driver.OpsC04
 import Vore.Driver.OpsC05
 import Vore.Driver.OpsC07
@@ -16,6 +17,6 @@ Each property that needs its own line-protocol operations defines, in
 -/
 namespace Vore.Driver
 
-def extraOps : List (String → List String → Option String) := [handleC04, handleC05, handleC07, handleC20, handleLex, handleC17, handleC18, handleC11]
+def extraOps : List (String → List String → Option String) := [handleParse, handleC04, handleC05, handleC07, handleC20, handleLex, handleC17, handleC18, handleC11]
 
 end Vore.Driver
